@@ -4,7 +4,9 @@ patch=$1; tier=$2; shift 2
 cd /repo || exit 9
 if [ -n "$(git status --porcelain)" ]; then echo "/repo not clean"; exit 9; fi
 git apply "$patch" || { echo "patch does not apply"; exit 9; }
-trap 'git -C /repo checkout -- . ; (cd /verif && python3 harness/translate.py >/dev/null 2>&1)' EXIT
+# evidence written while a change is applied must never be committed: keep the clean-tree evidence aside
+rm -rf /tmp/evidence_clean && cp -r /verif/evidence /tmp/evidence_clean
+trap 'git -C /repo checkout -- . ; (cd /verif && python3 harness/translate.py >/dev/null 2>&1); rm -rf /verif/evidence && mv /tmp/evidence_clean /verif/evidence' EXIT
 cd /verif
 for pid in "$@"; do
   start=$(date +%s)
